@@ -413,13 +413,29 @@ func mkCase(in Input, out Output, nontrivial bool, tags []string) Case {
 // ---------------------------------------------------------------- equality-only cases
 func runEqLib(e *EqIn) (groups [][]string) {
 	fail := func(msg string) [][]string { return [][]string{{"\x01" + msg, ""}} }
-	var kO, kP *expressions.CompiledKeyBuilder
+	var ks []*expressions.CompiledKeyBuilder
 	p := guarded(func() {
 		loadMu.Lock()
 		defer loadMu.Unlock()
+		// a fresh table and freshly compiled (stateful) stages for every builder
+		build := func(opt, withFuncs bool, tmpl string) {
+			funclib.Additional = make(funclib.FunctionSet)
+			if withFuncs {
+				funclib.TryAddFunctions(funcfile.LoadDefinitions(funclib.NewKeyBuilder(), strings.NewReader(e.Funcs), "gen"))
+			}
+			k, _ := funclib.NewKeyBuilderEx(opt).Compile(tmpl)
+			ks = append(ks, k)
+		}
+		if e.Funcs == "" {
+			build(true, false, e.Tmpl)
+			build(false, false, e.Tmpl)
+		} else { // call (optimising, plain) and the inlined body (optimising, plain)
+			build(true, true, e.Call)
+			build(false, true, e.Call)
+			build(true, true, e.Inlined) // the inlined body may still call earlier definitions
+			build(false, true, e.Inlined)
+		}
 		funclib.Additional = make(funclib.FunctionSet)
-		kO, _ = funclib.NewKeyBuilderEx(true).Compile(e.Tmpl)
-		kP, _ = funclib.NewKeyBuilderEx(false).Compile(e.Tmpl)
 	})
 	if p != "" {
 		return fail("compile: " + p)
@@ -427,9 +443,12 @@ func runEqLib(e *EqIn) (groups [][]string) {
 	// each builder sees the contexts in the same order (some stages remember the first value they saw)
 	p = guarded(func() {
 		for _, c := range e.Ctxs {
-			a, _ := evalCount(kO, c)
-			b, _ := evalCount(kP, c)
-			groups = append(groups, []string{a, b})
+			var g []string
+			for _, k := range ks {
+				a, _ := evalCount(k, c)
+				g = append(g, a)
+			}
+			groups = append(groups, g)
 		}
 	})
 	if p != "" {
@@ -613,6 +632,73 @@ func (g *gen) eqLibCases() []Case {
 	return cases
 }
 
+
+// funcs-file functions whose body reaches a stage that remembers what it saw (time / buckettime with an
+// auto-detected layout) or other time helpers, called with arguments mixing constant text and captures:
+// call (optimising, plain) = inlined body (optimising, plain) on every context
+func (g *gen) eqFnTimeCases() []Case {
+	r := g.r
+	empty := Ctx{M: []string{}, K: map[string]string{}}
+	mk := func(vals ...string) Ctx { return Ctx{M: vals, K: map[string]string{}} }
+	day := fmt.Sprintf("20%02d-%02d-%02d", r.Range(10, 30), r.Range(1, 12), r.Range(1, 28))
+	c1 := fmt.Sprintf("%02d:%02d:%02d", r.Range(0, 23), r.Range(0, 59), r.Range(0, 59))
+	c2 := fmt.Sprintf("%02d:%02d:%02d", r.Range(0, 23), r.Range(0, 59), r.Range(0, 59))
+	// bodies use "{0}" / "{1}" (quoted) so that the textual substitution of an argument stays one argument
+	type fam struct {
+		defs    []string // name body
+		call    []string // name, arg0, arg1..
+		ctxs    []Ctx
+		stateful bool // auto-detected layout fed from a call-site argument that mixes text and a capture
+	}
+	list := []fam{
+		{[]string{`ts {time "{0}"}`}, []string{"ts", day + " {0}"}, []Ctx{mk(c1), mk(c2)}, true},
+		{[]string{`ts {time "{0}" cache}`}, []string{"ts", day + "T{0}Z"}, []Ctx{mk(c1), mk(c2)}, true},
+		{[]string{`bt {buckettime "{0}" hour}`}, []string{"bt", day + " {0}"}, []Ctx{mk(c1), mk(c2)}, true},
+		{[]string{`tf {timeformat {time "{0}"} RFC3339}-{1}`}, []string{"tf", day + " {0}", "x{0}"}, []Ctx{mk(c1)}, true},
+		{[]string{`t2 {time "{0} {1}"}`}, []string{"t2", day, "{0}"}, []Ctx{mk(c1), mk(c2)}, true},
+		{[]string{`ts {time "{0}"}`, `t3 {ts "{0} {1}"}+{sumi {ts "{0} {1}"} 1}`}, []string{"t3", day, "{0}"}, []Ctx{mk(c1)}, true},
+		{[]string{`wd {timeattr {time "{0}"} weekday}/{time "{0}" auto}`}, []string{"wd", day + " {0}"}, []Ctx{mk(c1)}, true},
+		{[]string{`ts {time "{0}"}`}, []string{"ts", "{0}"}, []Ctx{mk(day + " " + c1), mk(day + " " + c2)}, false},
+		{[]string{`ts {time "{0}"}`}, []string{"ts", day + " " + c1}, []Ctx{mk("a")}, false},
+		{[]string{`tz {time "{0}" RFC3339}|{timeformat "{1}" "2006-01-02" utc}`}, []string{"tz", day + "T{0}Z", "15778{1}"}, []Ctx{mk(c1, "36800")}, false},
+		{[]string{`du {duration "{0}"}:{durationformat "{1}"}`}, []string{"du", "{0}m", "1{1}"}, []Ctx{mk("5", "00")}, false},
+	}
+	var cases []Case
+	for _, f := range list {
+		var lines []string
+		cont := false
+		for _, d := range f.defs {
+			lines = append(lines, g.layoutDef(d, &cont)...)
+		}
+		// the last definition is the one called; its body with {i} replaced by the i-th argument text
+		last := f.defs[len(f.defs)-1]
+		body := last[strings.Index(last, " ")+1:]
+		inl := body
+		for i := 0; i < 3; i++ {
+			inl = strings.ReplaceAll(inl, fmt.Sprintf("{%d}", i), "\x02"+fmt.Sprint(i)+"\x03")
+		}
+		for i := 0; i < 3; i++ {
+			a := ""
+			if i+1 < len(f.call) {
+				a = f.call[i+1]
+			}
+			inl = strings.ReplaceAll(inl, "\x02"+fmt.Sprint(i)+"\x03", a)
+		}
+		call := "{" + f.call[0]
+		for _, a := range f.call[1:] {
+			call += ` "` + a + `"`
+		}
+		call += "}"
+		e := &EqIn{Kind: "lib", Funcs: strings.Join(lines, "\n") + "\n", Call: call, Inlined: inl, Ctxs: append(f.ctxs, empty)}
+		tags := []string{"funcs-file-time"}
+		if f.stateful {
+			tags = append(tags, "kf:C10-time-probe-through-function")
+		}
+		cases = append(cases, mkEqCase(e, runEq(e), tags))
+	}
+	return cases
+}
+
 // the rare binary: global switches x a funcs-file function whose body has an argument-free
 // sub-expression depending on that switch
 func (g *gen) eqCliCases() []Case {
@@ -643,6 +729,12 @@ func (g *gen) eqCliCases() []Case {
 	emit(switches[0], bodies[6], true)
 	for i := 0; i < 2; i++ {
 		emit(Pick(r, switches), Pick(r, bodies), r.Chance(1, 3))
+	}
+	// a stateful stage inside a function, reached with a mixed constant + capture argument
+	{
+		e := &EqIn{Kind: "cli", Funcs: "ts {time {0}}\n", Call: `{ts "2020-01-01 {0}"}`, Inlined: `{time "2020-01-01 {0}"}`,
+			Data: []string{fmt.Sprintf("%02d:%02d:00", r.Range(0, 23), r.Range(0, 59))}}
+		cases = append(cases, mkEqCase(e, runEq(e), []string{"cli", "funcs-file-time", "kf:C10-time-probe-through-function"}))
 	}
 	return cases
 }
@@ -1285,6 +1377,7 @@ func c10Gen(r *Rng, n int, tier string) []Case {
 		nTimed = 40
 	}
 	cases = append(cases, g.eqLibCases()...)
+	cases = append(cases, g.eqFnTimeCases()...)
 	cases = append(cases, g.eqCliCases()...)
 	if rareBin != "" {
 		defer os.Remove(rareBin)
@@ -1318,7 +1411,8 @@ func main() {
 			"every template is compiled by funclib.NewKeyBuilderEx(true) and (false) and evaluated on 1-3 generated contexts plus the all-empty context with a look-up-counting context, then 3 rounds from each of 1-8 goroutines sharing the compiled expressions; " +
 			"timed cases ({time now|live|delta} plain, nested, inside a funcs-file function, inside @map) are evaluated twice 1.1 s apart and only 'did the value change' is observed. " +
 			"equality-only cases (no model prediction): 30 templates over helpers that are not modelled (time with auto-detected / given formats, buckettime, timeformat, durations, floats, format, @split/@join/@slice/@select/@range, paths, json, !, byte sizes, repeat/bar/color, lookup/load) with constant, dynamic and mixed text in the arguments and seeded dates/numbers: optimising builder = plain builder on every context, the all-empty one last; " +
-			"10 command-line cases: the rare binary built from $VERIF_REPO, a generated functions file (random layout) whose body has an argument-free sub-expression governed by a global switch ({hi ..} {hf ..} --noformat, {color ..} --color/--nocolor, {bar ..} --nounicode, {load ..} --noload), `rare <switch> --funcs F expression <call>`, the same with --no-optimize, and `rare <switch> expression <inlined body>` with and without --no-optimize (one case through RARE_FUNC_FILES): the four stdout+exit-code strings must be equal. " +
+			"11 funcs-file cases whose body reaches time/buckettime (auto-detected layout, remembered by the stage), timeformat, timeattr, duration through {i}, a later definition calling an earlier one, called with arguments mixing constant text and captures: call (optimising, plain) = inlined body (optimising, plain) on every context, every builder compiled freshly; " +
+			"11 command-line cases: the rare binary built from $VERIF_REPO, a generated functions file (random layout) whose body has an argument-free sub-expression governed by a global switch ({hi ..} {hf ..} --noformat, {color ..} --color/--nocolor, {bar ..} --nounicode, {load ..} --noload), `rare <switch> --funcs F expression <call>`, the same with --no-optimize, and `rare <switch> expression <inlined body>` with and without --no-optimize (one case through RARE_FUNC_FILES): the four stdout+exit-code strings must be equal. " +
 			"distinct = distinct (functions file, template, contexts); non-trivial = a helper call mixing constant and dynamic arguments, a funcs-file call, a binder, a malformed functions file or a timed case.",
 		Gen: c10Gen,
 		Replay: func(d json.RawMessage) (Case, error) {
